@@ -58,13 +58,41 @@ type devSpec struct {
 	Dedicated  map[string]netip.Addr `json:"dedicated"`
 	HumanLower string                `json:"human_id,omitempty"`
 	Auto       bool                  `json:"auto_created,omitempty"`
+	// BadHash names the way the stored hash is unusable ("" = usable).
+	BadHash string `json:"bad_hash,omitempty"`
 
 	dev *agd.Device
 }
 
 func (d *devSpec) enabled() bool { return d.Kind != akOff }
-func (d *devSpec) dohOnly() bool { return d.Kind == akDoHOnly || d.Kind == akDoHOAllow }
-func (d *devSpec) hasHash() bool { return d.Kind == akOff || d.Kind == akOn || d.Kind == akDoHOnly }
+func (d *devSpec) dohOnly() bool {
+	return d.Kind == akDoHOnly || d.Kind == akDoHOAllow || strings.HasPrefix(d.Kind, "bhd-")
+}
+func (d *devSpec) hasHash() bool {
+	return d.Kind == akOff || d.Kind == akOn || d.Kind == akDoHOnly || d.BadHash != ""
+}
+
+// badHashes are stored password hashes that bcrypt cannot use; the key is the
+// variant name, the value makes the stored bytes from a valid hash.  A device
+// with authentication enabled and such a hash has NO password that the
+// statement would call right: nothing is documented about the password the
+// hash was once derived from, so that one is counted and not judged; a wrong
+// or empty password must never yield recognition.
+var badHashes = []struct {
+	name, idPrefix string
+	mk             func(valid []byte) []byte
+}{
+	{"empty", "bem", func([]byte) []byte { return []byte{} }},
+	{"trunc", "btr", func(h []byte) []byte { return h[:30] }},
+	{"newver", "bnv", func(h []byte) []byte { return append([]byte("$3"), h[2:]...) }},
+	{"noprefix", "bnp", func(h []byte) []byte { return append([]byte("x"), h[1:]...) }},
+	{"argon2", "bar", func([]byte) []byte {
+		return []byte("$argon2id$v=19$m=65536,t=3,p=4$c29tZXNhbHRzb21lc2FsdA$RdescudvJCsgt3ub+b+dWRWJTmaaJObG8Uw1vHBBD5s")
+	}},
+	{"cost03", "bc3", func(h []byte) []byte { return append(append([]byte{}, h[:4]...), append([]byte("03"), h[6:]...)...) }},
+	{"cost32", "bc9", func(h []byte) []byte { return append(append([]byte{}, h[:4]...), append([]byte("32"), h[6:]...)...) }},
+	{"trail", "btl", func(h []byte) []byte { return append(append([]byte{}, h...), "xx"...) }},
+}
 
 // profSpec is what the model knows about a profile.
 type profSpec struct {
@@ -181,10 +209,10 @@ var neutralRemote = netip.MustParseAddr("198.51.100.7")
 
 // ifaceServers lists the interface-bound servers and their dedicated ranges.
 var ifaceRanges = map[string]string{
-	"dnsi":      "192.0.2.64/27",
-	"dnsil":     "192.0.2.96/27",
-	"doti":      "192.0.2.128/27",
-	"dnscrypti": "192.0.2.160/27",
+	"dnsi":      "198.18.1.0/25",
+	"dnsil":     "198.18.2.0/25",
+	"doti":      "198.18.3.0/25",
+	"dnscrypti": "198.18.4.0/25",
 }
 
 func buildServers() (map[string]*grpSpec, []*srvSpec, []*agd.ServerGroup) {
@@ -282,13 +310,14 @@ func buildWorld(r *vkit.Run, dbKind string, round int, tweak ...func(*stack.Opti
 
 	const pwChars = "abcdefghijklmnopqrstuvwxyzABCDEFGHIJKLMNOPQRSTUVWXYZ0123456789:@/ %"
 	n := 0
+	badHash := ""
 	newDev := func(prof agd.ProfileID, kind, state, idPrefix, human string) *devSpec {
 		n++
 		id := agd.DeviceID(fmt.Sprintf("%s%02x", idPrefix, rnd.IntN(256)))
 		for w.byID[id] != nil {
 			id = agd.DeviceID(fmt.Sprintf("%s%02x", idPrefix, rnd.IntN(256)))
 		}
-		d := &devSpec{ID: id, Prof: prof, Kind: kind, State: state, HumanLower: human,
+		d := &devSpec{ID: id, Prof: prof, Kind: kind, State: state, HumanLower: human, BadHash: badHash,
 			Linked:    netip.AddrFrom4([4]byte{203, 0, 113, byte(10 + n)}),
 			Dedicated: map[string]netip.Addr{}}
 		var ded []netip.Addr
@@ -310,6 +339,11 @@ func buildWorld(r *vkit.Run, dbKind string, round int, tweak ...func(*stack.Opti
 			h, err := bcrypt.GenerateFromPassword(pw, bcrypt.MinCost)
 			if err != nil {
 				panic(err)
+			}
+			for _, bh := range badHashes {
+				if bh.name == badHash {
+					h = bh.mk(h)
+				}
 			}
 			auth.PasswordHash = agdpasswd.NewPasswordHashBcrypt(h)
 		} else {
@@ -343,7 +377,15 @@ func buildWorld(r *vkit.Run, dbKind string, round int, tweak ...func(*stack.Opti
 	newDev("pautodel", akOff, stDeleted, "hdel", "old-tv")
 	newDev("pautodet", akOn, stDetached, "hdet", "old-pad")
 	_ = keeper
-	if n > 28 {
+	// Devices with authentication enabled and an unusable stored hash.
+	for _, bh := range badHashes {
+		badHash = bh.name
+		newDev("plive", "bh-"+bh.name, stLive, bh.idPrefix+"l", "")
+	}
+	badHash = "empty"
+	newDev("plive", "bhd-empty", stLive, "bdel", "")
+	badHash = ""
+	if n > 100 {
 		return nil, fmt.Errorf("too many devices for the dedicated ranges: %d", n)
 	}
 
@@ -504,6 +546,9 @@ type recDB struct {
 
 	mu    sync.Mutex
 	calls map[string]int
+	// onHuman, if set, is called at the start of every ProfileByHumanID with
+	// copies of the arguments and may block.
+	onHuman func(prof, humanLower string)
 }
 
 func (db *recDB) count(k string) {
@@ -533,7 +578,10 @@ func (db *recDB) CreateAutoDevice(ctx context.Context, id agd.ProfileID, h agd.H
 		w := db.w
 		w.mu.Lock()
 		if w.byID[d.ID] == nil {
-			ds := &devSpec{ID: d.ID, Prof: id, Kind: akOff, State: stLive, HumanLower: strings.ToLower(string(h)), Auto: true, dev: d}
+			// Copies: the strings the code under test hands out are not trusted
+			// to stay what they are.
+			ds := &devSpec{ID: agd.DeviceID(strings.Clone(string(d.ID))), Prof: id, Kind: akOff, State: stLive,
+				HumanLower: strings.Clone(string(d.HumanIDLower)), Auto: true, dev: d}
 			if ps := w.Profs[id]; ps != nil && ps.Deleted {
 				ds.State = stDeleted
 			}
@@ -559,6 +607,13 @@ func (db *recDB) ProfileByDeviceID(ctx context.Context, id agd.DeviceID) (*agd.P
 
 func (db *recDB) ProfileByHumanID(ctx context.Context, id agd.ProfileID, h agd.HumanIDLower) (*agd.Profile, *agd.Device, error) {
 	db.count("human-id")
+	db.mu.Lock()
+	hook := db.onHuman
+	db.mu.Unlock()
+	if hook != nil {
+		// A slow database; no lock is held meanwhile.
+		hook(string(id), strings.Clone(string(h)))
+	}
 	return db.inner.ProfileByHumanID(ctx, id, h)
 }
 
@@ -605,12 +660,13 @@ func (s *scriptStorage) CreateAutoDevice(_ context.Context, req *profiledb.Stora
 	if s.auto == nil {
 		s.auto = map[string]*agd.Device{}
 	}
-	k := string(req.ProfileID) + "/" + strings.ToLower(string(req.HumanID))
+	human := strings.Clone(string(req.HumanID))
+	k := string(req.ProfileID) + "/" + strings.ToLower(human)
 	d := s.auto[k]
 	if d == nil {
 		d = &agd.Device{Auth: &agd.AuthSettings{PasswordHash: agdpasswd.AllowAuthenticator{}},
-			ID: agd.DeviceID(fmt.Sprintf("au%04d", len(s.auto))), HumanIDLower: agd.HumanIDToLower(req.HumanID),
-			Name: agd.DeviceName(req.HumanID), FilteringEnabled: true}
+			ID: agd.DeviceID(fmt.Sprintf("au%04d", len(s.auto))), HumanIDLower: agd.HumanIDLower(strings.Clone(strings.ToLower(human))),
+			Name: agd.DeviceName(human), FilteringEnabled: true}
 		s.auto[k] = d
 	}
 	return &profiledb.StorageCreateAutoDeviceResponse{Device: d}, nil
